@@ -43,6 +43,7 @@ func runC17(c *Ctx) {
 	c17Data(c)
 	c17Downsample(c)
 	c17IterFresh(c)
+	c17Threshold(c)
 	c17Labeler(c)
 }
 
@@ -933,4 +934,63 @@ func c17Labeler(c *Ctx) {
 func isConstOne(v ssa.Value) bool {
 	one, ok := constInt(v)
 	return ok && one == 1
+}
+
+// c17Threshold: threshold 0 means "plot every point". Plot.threshold therefore holds exactly what
+// the Downsample option was given; a constructor that fills in a default when it finds 0 makes
+// "not given" and "explicitly 0" the same thing and reduces series that were to stay whole.
+func c17Threshold(c *Ctx) {
+	const rule = "Plot.threshold is written only from an option parameter as given (0 keeps meaning: no downsampling); no constructor or method replaces it by a default or an adjusted value"
+	key := "threshold-provenance:lib/plot.Plot.threshold"
+	var good, bad []ssa.Instruction
+	for _, fn := range c.P.RepoFuncs("lib/plot") {
+		eachInstr(fn, func(i ssa.Instruction) {
+			st, isSt := i.(*ssa.Store)
+			if !isSt {
+				return
+			}
+			fa, isFA := st.Addr.(*ssa.FieldAddr)
+			if !isFA || !isNamedType(fa.X.Type(), "lib/plot", "Plot") || fieldName(fa.X.Type(), fa.Field) != "threshold" {
+				return
+			}
+			v := st.Val
+			if fv, isFV := v.(*ssa.FreeVar); isFV {
+				v = bindingOf(fv)
+			}
+			if ld, isLd := isLoad(v); isLd {
+				// a captured parameter lives in a cell: its only store is the parameter itself
+				cell := ld.X
+				if fv, isFV := cell.(*ssa.FreeVar); isFV {
+					cell = bindingOf(fv)
+				}
+				if al, isAl := cell.(*ssa.Alloc); isAl {
+					var only ssa.Value
+					n := 0
+					for _, g := range withAnon(al.Parent()) {
+						eachInstr(g, func(j ssa.Instruction) {
+							if s2, isS2 := j.(*ssa.Store); isS2 && rootCell(s2.Addr) == ssa.Value(al) {
+								n++
+								only = s2.Val
+							}
+						})
+					}
+					if n == 1 {
+						v = only
+					}
+				}
+			}
+			if _, isP := v.(*ssa.Parameter); isP {
+				good = append(good, st)
+			} else {
+				bad = append(bad, st)
+			}
+		})
+	}
+	sortInstrs(good)
+	sortInstrs(bad)
+	if len(bad) > 0 {
+		c.Fail(key, rule, "Plot.threshold is stored from something other than an option parameter (a default or adjusted value: threshold 0 no longer leaves the series whole)", c.ats(bad)...)
+		return
+	}
+	c.Check(len(good) > 0, key, rule, "every store to Plot.threshold stores an option parameter unmodified", "no store to Plot.threshold found", c.ats(good)...)
 }
